@@ -40,7 +40,14 @@ fn wbyte(k: i64) -> u8 {
 /// the length conversion) lazily mapped zero pages, so that a 4 GiB slice costs no memory.
 fn slice_data(n: i64) -> Vec<u8> {
     if n > (1 << 24) {
-        vec![0u8; n as usize]
+        // calloc: untouched zero pages. Where the machine refuses that much address space the call is reported as a
+        // panic (what a correct tree answers), never as a crash of the harness.
+        let layout = std::alloc::Layout::array::<u8>(n as usize).expect("layout");
+        let p = unsafe { std::alloc::alloc_zeroed(layout) };
+        if p.is_null() {
+            panic!("cannot allocate {} bytes", n);
+        }
+        unsafe { Vec::from_raw_parts(p, n as usize, n as usize) }
     } else {
         (0..n).map(wbyte).collect()
     }
